@@ -98,6 +98,8 @@ pub fn event(id: usize, c: &ConeSpec, s: &[f64], z: &[f64], x: &[f64], y: &[f64]
     put("w_winv", dist(&b.w_winv_x, x), norm(x));
     put("winv_w", dist(&b.winv_w_x, x), norm(x));
     put("wt_winvt", dist(&b.wt_winvt_x, x), norm(x));
+    // the scaling of a symmetric cone is the same under either strategy and any mu (bit for bit: same inputs, same code)
+    put("strategy_independent", dist(&b.dual_wz, &b.wz) + dist(&b.dual_hs_x, &b.hs_x), 0.0);
     // the general form out = alpha * op(x) + beta * out of both multiplications (the solver only ever uses beta = 0)
     let wacc: Vec<f64> = (0..x.len()).map(|i| y[i] - b.wx[i]).collect();
     put("mul_w_accumulates", dist(&b.w_acc, &wacc), norm(y) + norm(&b.wx));
@@ -153,6 +155,13 @@ pub fn record(seed: u64, count: usize) -> (Vec<Value>, Value) {
         let family = ["centred", "centred", "magnitudes", "near_boundary"][rng.gen_range(0..4)];
         match family {
             "magnitudes" => { let (a, b) = (10f64.powf(gen::unif(&mut rng, -10.0, 4.0)), 10f64.powf(gen::unif(&mut rng, -10.0, 4.0))); for v in s.iter_mut() { *v *= a; } for v in z.iter_mut() { *v *= b; } }
+            // (a nonnegative cone at the end of a solve: slack and multiplier 16 to 19 orders of magnitude apart, either way)
+            "centred" if matches!(c, ConeSpec::Nonneg(_)) && rng.gen::<f64>() < 0.5 => {
+                let (a, b) = (10f64.powf(gen::unif(&mut rng, 6.0, 9.0)), 10f64.powf(gen::unif(&mut rng, -10.0, -8.0)));
+                let flip = rng.gen::<bool>();
+                for v in s.iter_mut() { *v *= if flip { b } else { a }; }
+                for v in z.iter_mut() { *v *= if flip { a } else { b }; }
+            }
             "near_boundary" => { let rel = 10f64.powf(gen::unif(&mut rng, -6.0, -2.0)); if rng.gen::<bool>() { s = near_boundary_point(&c, &mut rng, rel); } else { z = near_boundary_point(&c, &mut rng, rel); } }
             _ => {}
         }
